@@ -133,6 +133,12 @@ def c03(ctx):
     ctx.require_tags(summ["tags"], ["home-rook-captured", "promotion-captures-home-rook"] + ["home-rook-captured-by-" + k for k in ("king", "queen", "rook", "bishop", "knight")])
     ctx.extra["move_kinds_applied"] = summ["movekinds"]
     b2_games(ctx, ["succ"], 40 if quick else 800, 200, 0, shards=4 if quick else 8)
+    # one marathon game (1300 plies on one board, castling rights held beyond ply 600 and lost afterwards):
+    # the successor must be the rules' successor however long the history behind it
+    import props_engine
+    mb, mev, mh, msk = props_engine.run_traces(ctx, "clock", 1 if quick else 3, 1, 1300, label="marathon")
+    props_engine.absorb_bad(ctx, mb)
+    ctx.evaluations += mev
     ctx.sample({"binding": "B1", "move_kinds_applied": summ["movekinds"]})
     ctx.rule = ("B1: every legal move of every oracle state applied to the set-up position with ChessMove::apply, 64 squares + rights + ep + turn compared with SuccNoFlip; "
                 "B2: every move applied along seeded random games logged with before/after and validated by TLC. "
@@ -159,6 +165,14 @@ def c13(ctx):
     ctx.require_tags(summ["tags"], LIKE_TAGS + ["O-O:w", "O-O-O:b", "promoxN:w", "ep:b", "checkmate", "check"])
     ctx.extra["tags"] = {t: summ["tags"].get(t, 0) for t in LIKE_TAGS}
     b2_games(ctx, ["san"], 30 if quick else 500, 150, 400 if quick else 10000, heavy=2, shards=4 if quick else 8, max_extra=8)
+    # the labelled list as the Game hands it to its front ends, along games in which the same placement comes back
+    # with the other side to move (triangulations) and along typed games
+    import props_game
+    gb, gev, gh = props_game.run_game_traces(ctx, "triangle", 1, 0, 0)
+    props_game.absorb_game(ctx, gb, {"GLabels"})
+    gb2, gev2, gh2 = props_game.run_game_traces(ctx, "typed", 4, 2 if quick else 8, 30 if quick else 60, extra=["--full-every", 0])
+    props_game.absorb_game(ctx, gb2, {"GLabels"})
+    ctx.evaluations += gev + gev2
     ctx.sample({"binding": "B1", "tags": ctx.extra["tags"]})
     ctx.rule = ("B1: label-by-label comparison of enumerate_candidate_moves_with_algebraic_notation with SAN(pos, m, Legal(pos)) and pairwise distinctness, on every oracle state; "
                 "B2: the code's labels along random games / set-ups validated by TLC. distinct_nontrivial = labels longer than a plain piece move")
